@@ -31,6 +31,10 @@ def generate(rng, tier):
     env = gen.gen_env(rng)
     tree = gen.gen_tree(rng, max_entries=10, max_depth=2, hostile=0.15, unique=True, min_files=2, empty_dirs=True)
     tree.setdefault("D1", {"t": "d"})
+    empty = None
+    if rng.random() < 0.3:
+        empty = rng.choice(["empty.marker", "D1/empty.lock"])
+        tree[empty] = {"t": "f", "c": {"gen": [0, 0]}}
     env["tree"] = tree
     f1 = gen.pick_formats(rng, 1, 2)
     setup = [scen.cmd("create", "@R", *gen.fmt_args(f1), *(["-n"] if rng.random() < 0.15 else []))]
@@ -55,6 +59,8 @@ def generate(rng, tier):
         cands = [f for f in files if f not in moved]
         if late and rng.random() < 0.5:
             cands = [f for f in late if f not in moved] or cands
+        if empty and empty not in moved and rng.random() < 0.6:
+            cands = [empty]
         if not cands:
             break
         src = rng.choice(cands)
